@@ -66,6 +66,7 @@ type PermRes struct {
 	ExistsI [][]int  `json:"existsi"` // ignoreExpiration
 	Locked  [][]int  `json:"locked"`
 	Garbage [][]int  `json:"garbage"` // GetGarbage(10000): bins [cnr, ids...]
+	All     []int    `json:"all"`     // Exists at the query epoch for the address of every blob, in blob-list order
 	Remain  [][2]int `json:"remain,omitempty"`
 	IterErrs int     `json:"itererrs"`
 	GCRun   bool     `json:"gcrun,omitempty"` // Remain = blobs left after the shard's GC passes
@@ -135,6 +136,28 @@ func (e *env18) close() {
 func addrOf(o *Obj) oid.Address { return oid.NewAddress(mkCID(o.C), mkOID(o.ID)) }
 
 func (e *env18) putBlobs(blobs []*Obj) {
+	if len(blobs) > 64 {
+		// large sets through fstree.PutBatch: a single Put waits for the combined-write timer
+		batch := map[oid.Address][]byte{}
+		flush := func() {
+			if len(batch) > 0 {
+				must(e.fst.PutBatch(batch))
+				batch = map[oid.Address][]byte{}
+			}
+		}
+		for _, o := range blobs {
+			ok, err := e.fst.Exists(addrOf(o))
+			must(err)
+			if !ok {
+				batch[addrOf(o)] = build(o).Marshal()
+			}
+			if len(batch) == 100 {
+				flush()
+			}
+		}
+		flush()
+		return
+	}
 	for _, o := range blobs {
 		ok, err := e.fst.Exists(addrOf(o))
 		must(err)
@@ -157,6 +180,18 @@ func (e *env18) remaining() [][2]int {
 		return res[i][1] < res[j][1]
 	})
 	return res
+}
+
+func (e *env18) observeAll(pr *PermRes, blobs []*Obj) {
+	pr.All = make([]int, 0, len(blobs))
+	for _, o := range blobs {
+		ok, err := e.mb.Exists(addrOf(o), false)
+		cl := viewClass(err)
+		if err == nil && !ok {
+			cl = vAbsent
+		}
+		pr.All = append(pr.All, cl)
+	}
 }
 
 func (e *env18) observe(pr *PermRes) {
@@ -223,6 +258,7 @@ func (e *env18) runPerm(c *C18Case, ord []int, gc bool) PermRes {
 	pr.IterErrs = iterErrs
 	e.es.e.Store(c.Q)
 	e.observe(&pr)
+	e.observeAll(&pr, c.Blobs)
 	if gc {
 		for k := 0; k < 8; k++ {
 			e.sh.VerifRemoveGarbage()
@@ -277,6 +313,40 @@ func somePerms(r *rng, n, k int) [][]int {
 			x := r.n(i + 1)
 			p[i], p[x] = p[x], p[i]
 		}
+		res = append(res, p)
+	}
+	return res
+}
+
+// largePerms: the blob list as generated, reversed, and nRot rotations (compact forms the driver
+// writes as Coq expressions instead of literals).  The first rotations bring the group members that
+// neither the list order nor the reversed order reads as the (B+1)-th blob to that position.
+func largePerms(r *rng, c *C18Case, nRot int) [][]int {
+	n := len(c.Blobs)
+	B := meta.VerifResyncConsts()["resync_batch_size"]
+	id := make([]int, n)
+	rev := make([]int, n)
+	for i := range id {
+		id[i] = i
+		rev[i] = n - 1 - i
+	}
+	res := [][]int{id, rev}
+	for j := 0; j < nRot; j++ {
+		k := 0
+		if j < 3 && n > B {
+			want := 1 + (c.I+[]int{1, 2, 4}[j])%5
+			for ix, o := range c.Blobs {
+				if o.C == 1 && o.ID == want {
+					k = ((ix-B)%n + n) % n // position of blob ix in the rotation by k is ix-k (mod n)
+				}
+			}
+		}
+		if k == 0 {
+			k = 1 + r.n(n-1)
+		}
+		p := make([]int, 0, n)
+		p = append(p, id[k:]...)
+		p = append(p, id[:k]...)
 		res = append(res, p)
 	}
 	return res
@@ -545,8 +615,92 @@ func genFull(r *rng, maxN int) []*Obj {
 	return pool
 }
 
+// large: more blobs than one batch of the rebuild (the batch size is read from the compiled code):
+// B+k blobs, k small; tiny regular fillers (a few tombstones / locks of fillers, never both on one
+// target) and a group X, T(X), Y, L(Y), Z(expiring) whose members sit at and around the batch
+// boundary of the enumeration (0-based positions B-2 .. B+1, last, and k-2 .. k = the boundary of
+// the reversed order).  The set satisfies the premises of the theorems, so the order-free reference applies.
+func genLarge(r *rng, i int) []*Obj {
+	B := meta.VerifResyncConsts()["resync_batch_size"]
+	k := []int{1, 2, 3, 5}[i%4]
+	if i >= 4 {
+		k = 1 + r.n(9)
+	}
+	n := B + k
+	group := []*Obj{
+		{C: 1, ID: 1, T: 0, Size: 3, Exp: -1, ECR: -1, ECI: -1},           // X
+		{C: 1, ID: 2, T: 1, Exp: -1, Assoc: 1, ECR: -1, ECI: -1},          // T(X)
+		{C: 1, ID: 3, T: 0, Size: 2, Exp: -1, ECR: -1, ECI: -1},           // Y
+		{C: 1, ID: 4, T: 2, Exp: 9, Assoc: 3, ECR: -1, ECI: -1},           // L(Y), live at the query epoch
+		{C: 1, ID: 5, T: 0, Size: 1, Exp: int64(2 + 7*r.n(2)), ECR: -1, ECI: -1}, // Z, expired or not at q = 5
+	}
+	if n < len(group)+4 {
+		n = len(group) + 4
+	}
+	pos := map[int]*Obj{}
+	place := func(o *Obj, p int) bool {
+		if p < 0 || p >= n || pos[p] != nil {
+			return false
+		}
+		pos[p] = o
+		return true
+	}
+	cands := []int{B - 2, B - 1, B, B + 1, n - 1, k - 2, k - 1, k, 0, n - 1 - B}
+	first := group[i%len(group)]  // exactly the (B+1)-th blob read in list order
+	second := group[(i+3)%len(group)] // exactly the (B+1)-th blob read in reversed order
+	placed := map[*Obj]bool{}
+	if place(first, B) {
+		placed[first] = true
+	}
+	if place(second, n-1-B) {
+		placed[second] = true
+	}
+	for _, o := range group {
+		for tries := 0; !placed[o]; tries++ {
+			p := cands[r.n(len(cands))]
+			if tries > 20 {
+				p = r.n(n)
+			}
+			if place(o, p) {
+				placed[o] = true
+			}
+		}
+	}
+	var blobs []*Obj
+	var tombable, lockable []int // regular fillers of container 1
+	nextID := 21
+	for p := 0; p < n; p++ {
+		if o := pos[p]; o != nil {
+			blobs = append(blobs, o)
+			continue
+		}
+		o := &Obj{C: 1, ID: nextID, T: 0, Size: uint64(r.n(2)), Exp: -1, ECR: -1, ECI: -1}
+		nextID++
+		switch {
+		case r.p(2) && len(tombable) > 0:
+			o.T, o.Size = 1, 0
+			x := r.n(len(tombable))
+			o.Assoc = tombable[x]
+			tombable = append(tombable[:x], tombable[x+1:]...)
+		case r.p(2) && len(lockable) > 0:
+			o.T, o.Size = 2, 0
+			o.Assoc = lockable[r.n(len(lockable))]
+		case r.p(5):
+			o.C = 2
+		default:
+			if o.ID%3 == 0 {
+				tombable = append(tombable, o.ID)
+			} else if o.ID%3 == 1 {
+				lockable = append(lockable, o.ID)
+			}
+		}
+		blobs = append(blobs, o)
+	}
+	return blobs
+}
+
 func genCase18(seed uint64, profile string, i int, maxN int) *C18Case {
-	streams := map[string]uint64{"flat": 1, "hist": 2, "full": 3, "big": 4, "corpus": 5}
+	streams := map[string]uint64{"flat": 1, "hist": 2, "full": 3, "big": 4, "corpus": 5, "large": 6}
 	r := caseRng(seed, streams[profile], i)
 	c := &C18Case{I: i, Profile: profile}
 	switch profile {
@@ -579,6 +733,9 @@ func genCase18(seed uint64, profile string, i int, maxN int) *C18Case {
 			c.E = 0
 		}
 		return c
+	case "large":
+		c.Blobs = genLarge(r, i)
+		c.Q = 5
 	case "big": // more blobs than one resync batch: regular objects, a few tombstones and locks
 		n := maxN
 		for id := 1; id <= n; id++ {
@@ -614,6 +771,8 @@ func c18Run(cases []*C18Case, seed uint64, maxAll, nRand int, fixedPerms [][][]i
 			var perms [][]int
 			if fixedPerms != nil {
 				perms = fixedPerms[k]
+			} else if c.Profile == "large" {
+				perms = largePerms(caseRng(seed, 98, c.I), c, nRand)
 			} else if len(c.Blobs) <= maxAll {
 				perms = allPerms(len(c.Blobs))
 			} else {
@@ -624,7 +783,7 @@ func c18Run(cases []*C18Case, seed uint64, maxAll, nRand int, fixedPerms [][][]i
 				gc[len(perms)/3] = true
 				gc[2*len(perms)/3] = true
 			}
-			if c.Profile == "big" {
+			if c.Profile == "big" || len(c.Blobs) > 64 {
 				gc = map[int]bool{}
 			}
 			runCase18(c, perms, gc)
